@@ -1,10 +1,14 @@
 import json, sys
 pid = sys.argv[1]
+rnd = int(sys.argv[2])
 for l in open('/verif/properties.jsonl'):
     p = json.loads(l)
     if p['id'] == pid:
         break
-print(f"""You are helping to evaluate a verification effort by seeding a realistic bug. You work ONLY inside the git worktree /tmp/seed/{pid} (a checkout of the Rust project Nugine/s3s, an S3 service adapter). Do not read or write anything under /repo or /verif. There is no network; build with `CARGO_NET_OFFLINE=true CARGO_TARGET_DIR=/tmp/seed/target-{pid} cargo ... --offline` (the target dir is pre-warmed).
+import os
+prev = [json.load(open('/verif/seeded/%s/meta.json' % pid))['summary']] + [json.load(open('/verif/seeded/%s-r%d/meta.json' % (pid, r)))['summary'] for r in range(2, rnd) if os.path.exists('/verif/seeded/%s-r%d/meta.json' % (pid, r))]
+prevtxt = '; '.join('(%d) "%s"' % (i + 1, t) for i, t in enumerate(prev))
+print(f"""You are helping to evaluate a verification effort by seeding a realistic bug. You work ONLY inside the git worktree /tmp/seed{rnd}/{pid} (a checkout of the Rust project Nugine/s3s, an S3 service adapter, with a number of local repairs already applied - treat the tree as it is). Do not read or write anything under /repo or /verif. There is no network; build with `CARGO_NET_OFFLINE=true CARGO_TARGET_DIR=/tmp/seed{rnd}/target-{pid} cargo ... --offline` (the first build takes a few minutes).
 
 The property under study ({pid}: {p['title']}):
 
@@ -14,8 +18,10 @@ QUANTIFIER: {p['quantifier']['text']}
 
 Relevant files: {', '.join(p['anchors']['files'])}
 
-Your task: produce ONE change to the s3s source (non-test code under crates/ or codegen/; if you change generated files keep them consistent with what you intend) that BREAKS this property, while the project still compiles and the existing test suite still passes (`CARGO_NET_OFFLINE=true CARGO_TARGET_DIR=/tmp/seed/target-{pid} cargo test --workspace --offline` — run it and confirm; it takes a few minutes). The change should look like a plausible refactoring/optimisation/bug-fix slip a maintainer could make, and it must need something SPECIFIC to manifest — an unusual input, a particular boundary value, a multi-step sequence, a particular framing/interleaving, a fault at a particular point, or two cooperating sites that each look fine alone — NOT something that ordinary use would expose at once. Keep it small (a few lines).
+Your task: produce ONE change to the s3s source (non-test code under crates/ or codegen/; if you change generated files keep them consistent with what you intend) that BREAKS this property, while the project still compiles and the existing test suite still passes (`CARGO_NET_OFFLINE=true CARGO_TARGET_DIR=/tmp/seed{rnd}/target-{pid} cargo test --workspace --offline --lib --bins --tests --exclude s3s-e2e --exclude s3s-proxy` - run it and confirm). The change should look like a plausible refactoring/optimisation/bug-fix slip a maintainer could make, and it must need something SPECIFIC to manifest - an unusual input, a particular boundary value, a multi-step sequence, a particular framing/interleaving, a fault at a particular point, or two cooperating sites that each look fine alone - NOT something that ordinary use would expose at once. Keep it small (a few lines).
 
-Also write a demonstration: a small Rust test file or program (put it in /tmp/seed/{pid}-demo/, e.g. a cargo test file you temporarily copy into the crate's tests/ directory or a #[test] you describe how to run) that FAILS with your change and PASSES without it. Verify both directions yourself (use `git stash` or apply/revert your patch).
+{len(prev)} seeded changes for this property already exist; produce something DIFFERENT in kind and location from all of them: {prevtxt}. Prefer a part of the relevant code that neither of them touches, and a triggering condition of a different nature (for example: a state that only a particular sequence of operations reaches, an interaction between two features, a boundary of a size or counter, an error path, a rarely used variant of the input format).
 
-Deliver, in /tmp/seed/{pid}-out/: patch.diff (output of `git diff` in the worktree, applying cleanly with `git apply` to the worktree's HEAD), the demonstration file(s) with a README.txt that says exactly how to run it (commands), and notes.txt describing: what the change is, why it breaks the property, what specific condition it needs to manifest, and the output of the test suite run (pass counts). Leave the worktree with your patch reverted (clean `git status`) at the end. Final answer: a short summary of the change and the paths of the deliverables.""")
+Also write a demonstration: a small Rust test file (put it in /tmp/seed{rnd}/{pid}-demo/, e.g. a cargo integration test you temporarily copy into the crate's tests/ directory) that FAILS with your change and PASSES without it. Verify both directions yourself (save your patch with `git diff > /tmp/seed{rnd}/{pid}-out/patch.diff`, revert with `git checkout -- .`, re-apply with `git apply`; do NOT use `git stash`, the stash is shared between worktrees).
+
+Deliver, in /tmp/seed{rnd}/{pid}-out/: patch.diff (applying cleanly with `git apply` to the worktree's HEAD), the demonstration file(s) with a README.txt that says exactly how to run it, and notes.txt describing: what the change is, why it breaks the property, what specific condition it needs to manifest, and the pass counts of the test suite run with the patch. Leave the worktree with your patch reverted and the demo removed (clean `git status`) at the end. Final answer: a short summary of the change and the paths of the deliverables.""")
